@@ -33,12 +33,32 @@ def spathOf (j : Json) : SPath :=
   { root := srootOf (jstr j "root"),
     steps := (jarr j "steps").map fun st => if jbool st "up" then .up else .name (jstr st "name").toList }
 
+/-- an operand expression whose function arguments may be paths: each becomes `.env i`, i its place among the paths -/
+partial def exprOfP (j : Json) (ps : List SPath) : Option Expr × List SPath :=
+  match jstr j "t" with
+  | "path" => (some (.env ps.length), ps ++ [spathOf j])
+  | "call" =>
+    match Fn.ofName (jstr j "f") with
+    | none => (none, ps)
+    | some f =>
+      let (args, ps') := (jarr j "args").foldl (fun (acc : Option (List Expr) × List SPath) a =>
+        match exprOfP a acc.2 with
+        | (some e, p2) => (acc.1.map (· ++ [e]), p2)
+        | (none, p2) => (none, p2)) (some [], ps)
+      (args.map (.call f), ps')
+  | _ => (C01.exprOf j, ps)
+
+partial def hasPathArg (j : Json) : Bool :=
+  jstr j "t" = "path" || (jstr j "t" = "call" && (jarr j "args").any hasPathArg)
+
 def operandOf (j : Json) : Operand :=
   match jstr j "t" with
   | "lit" => .lit (jstr j "s").toList
   | "num" => (match C01.exprOf j with | some (.num x) => .num x | _ => .lit [])
   | "path" => .path (spathOf j)
-  | _ => (match C01.exprOf j with | some e => .scalar e | none => .lit [])
+  | _ =>
+    if hasPathArg j then (match exprOfP j [] with | (some e, ps) => .scalarP e ps | _ => .lit [])
+    else (match C01.exprOf j with | some e => .scalar e | none => .lit [])
 
 def stepOf (st : Json) : Step :=
   if jbool st "up" then .up
